@@ -326,14 +326,19 @@ def run_returns(acc):
                 continue
             record = []
             f = make_func(2, 0, record)
-            for combo in itertools.product(VALUES, repeat=2):
+            # ONE decorator object decorating two functions, each called for every value pair in turn: what the decorator
+            # or a wrapper prepared at decoration time has to serve every later call, not only the first
+            dec = call(lambda: ureg.wraps(ret, real_specs, strict=False))
+            ws = [call(lambda: dec[1](f)), call(lambda: dec[1](make_func(2, 0, record)))] if dec[0] == "ok" else []
+            for ci, combo in enumerate(itertools.product(VALUES, repeat=2)):
                 exp = model_wraps(specs, list(combo), False)
                 if exp[0] != "ok":
                     continue
                 RETBOX[0] = (11, 13) if isinstance(ret, (list, tuple)) else 42
                 acc.ev()
                 acc.nt(("ret", specs, str(ret), combo))
-                o = call(lambda: ureg.wraps(ret, real_specs, strict=False)(f)(*[parse_value(ureg, v) for v in combo]))
+                w = ws[ci % 2] if ws and ws[ci % 2][0] == "ok" else None
+                o = call(lambda: (w[1] if w else ureg.wraps(ret, real_specs, strict=False)(f))(*[parse_value(ureg, v) for v in combo]))
                 RETBOX[0] = 42
                 case = {"specs": [str(s) for s in specs], "ret": str(ret), "values": list(combo)}
                 if o[0] != "ok":
